@@ -72,8 +72,8 @@ PROPS["C20"] = {
           ["MessageBufReader::*", "capacity_expansion"], tier="thorough", t_quick=1800, t_thorough=3600, unwindset=GROW, group="grow"),
         H("c20", "k20_4_logscan_n8_c4_b4", "8-byte streams, 4-byte chunks, 4-byte buffer; log-scan protocol",
           ["MessageBufReader::*", "capacity_expansion"], tier="thorough", t_quick=1800, t_thorough=3600, unwindset=GROW, group="grow"),
-        H("c20", "k20_3_drain_n9_c3_b4", "9-byte streams, 3-byte chunks, 4-byte buffer", ["MessageBufReader::*"], tier="thorough", t_quick=1800, t_thorough=3600, unwindset=GROW, group="grow"),
-        H("c20", "k20_4_logscan_n9_c3_b4", "9-byte streams, 3-byte chunks, 4-byte buffer; log-scan protocol", ["MessageBufReader::*"], tier="thorough", t_quick=1800, t_thorough=3600, unwindset=GROW, group="grow"),
+        # (9, 3, 4) configurations: measured beyond the 14 GB memory watchdog in this sandbox (CBMC killed): kept in the harness source, not registered
+        # (9, 3, 4) configurations: measured beyond the 14 GB memory watchdog in this sandbox (CBMC killed): kept in the harness source, not registered
     ],
     "assumptions": [
         "std::backtrace::Backtrace::capture stubbed to Backtrace::disabled() (anyhow error construction otherwise walks getenv)",
